@@ -156,6 +156,12 @@ def snap_rating(p):
     return snap_obj(d, 2)
 
 
+def public_rating(p):
+    """what C20 promises survives a store/restore or a deepcopy: the values and the name (private bookkeeping attributes a
+    library may keep on a rating are not part of it)"""
+    return (fb(p.mu), fb(p.sigma), p.name)
+
+
 # --------------------------------------------------------------------------- the system under search
 class Search:
     """One (model class, model config, operation alphabet) search."""
@@ -299,8 +305,8 @@ class Search:
                 if len(set(ids)) != len(ids) or set(ids) & {p.id for p in old}:
                     checks.append(("I5", f"restore via {how} did not give fresh unique ids"))
                 for p, q in zip(old, L):
-                    if snap_rating(p) != snap_rating(q):
-                        checks.append(("I5", f"restore via {how} changed a rating: {snap_rating(p)} -> {snap_rating(q)}"))
+                    if public_rating(p) != public_rating(q):
+                        checks.append(("I5", f"restore via {how} changed a rating: {public_rating(p)} -> {public_rating(q)}"))
                 self._check_pred_after(m, L, pred_before, f"restore via {how}", checks)
             return ["restore", how]
         if kind == "deepcopy":
@@ -311,8 +317,8 @@ class Search:
                 for p, q in zip(old, flat):
                     if q is p:
                         checks.append(("I5", "deepcopy returned the same object"))
-                    if q.id != p.id or snap_rating(p) != snap_rating(q):
-                        checks.append(("I5", f"deepcopy changed a rating: id {p.id}->{q.id} {snap_rating(p)} -> {snap_rating(q)}"))
+                    if q.id != p.id or public_rating(p) != public_rating(q):
+                        checks.append(("I5", f"deepcopy changed a rating: id {p.id}->{q.id} {public_rating(p)} -> {public_rating(q)}"))
             L[:] = flat
             if checks is not None:
                 self._check_pred_after(m, L, pred_before, "deepcopy", checks)
